@@ -197,7 +197,7 @@ def check_mutators(ctx, facts, rule):
         tables = {op: summarize_mutator(facts, roles, b) for op, b in bodies.items()}
     except Unmodelled as e:
         ctx.note = getattr(ctx, 'note', [])
-        ctx.note.append('%s: semantic summary not available (%s); structural rules used instead' % (rule, e))
+        _fallback(ctx, rule, e)
         return False
     for op, table in tables.items():
         body = bodies[op]
@@ -342,7 +342,7 @@ def check_merge(ctx, facts, rule):
         table = summarize_merge(facts, roles, body)
     except Unmodelled as e:
         ctx.note = getattr(ctx, 'note', [])
-        ctx.note.append('%s: semantic summary not available (%s); structural rules used instead' % (rule, e))
+        _fallback(ctx, rule, e)
         return False
     unmerged = table.pop('unmerged')
     ctx.ob(rule.replace('.SEM', '.M'), 'merge|versions-merged-on-every-path', not unmerged, _site(body),
